@@ -109,7 +109,10 @@ class SignerVersion:
         if type(iteration) != int or iteration < 0 or iteration >= (2**16):
             raise ValueError("Invalid iteration (must be a 16-bit unsigned int)")
 
-        self._hash = hash.lower()
+        # Keep the canonical hex form of the 32 bytes: bytes.fromhex tolerates blanks
+        # between bytes, but the authorization message must carry exactly what
+        # the device rebuilds from the 32-byte hash it is given
+        self._hash = bytes.fromhex(hash).hex()
         self._iteration = iteration
 
     @property
